@@ -20,14 +20,16 @@ REGISTRATION = {
             "operation for all histories (inv_run, mask_exact_all_histories); WrapperCache: a rejected batch is "
             "unwound to the pre-batch abstraction in every wrapped cache, an accepted one satisfies mask_exact in "
             "each; store / window eviction commute with the abstraction (forward_abs_perm, slide_abs, evict_invisible, "
-            "forward_exposes_stored_history); EncoderCache modelled with encoder_cached_exact. Model = code is checked on thousands of generated histories per run "
+            "forward_exposes_stored_history); SetCausal/CausalOptions.Except (mask_exact_pass, startForward_except, "
+            "mask_exact_plain_after_reset); EncoderCache modelled with encoder_cached_exact. Model = code is checked on thousands of generated histories per run "
             "(exposed entries + data per batch token, abstraction and exact cell/row/range layout after every "
             "operation), and the property itself is evaluated on the real cache against a pure-Go shadow "
             "specification (mask through Cache.Get, K and V rows, both layers).",
     "design_ref": "DESIGN.md §5 C06",
     "note": COMMON_NOTE + "Modelled, not verified: int32 position arithmetic as unbounded Int (positions far from "
             "2^31), immediate graph execution (ctx.Compute boundaries), all layers Put on every pass, "
-            "SetCausal/Except and reserve passes. Still open: defrag preserves abs (repaired variant) and "
+            "reserve passes, the cached curMask between passes (SetCausal is observed only inside an accepted pass). "
+            "Still open: defrag preserves abs (repaired variant) and "
             "compacts (full-is-error as an iff) — covered by L1/L2 only; the end-to-end theorem "
             "forward_exposes_stored_history is for placements without defrag. The model variant (which repairs "
             "the tree carries) is probed from the real code on every run. "
@@ -40,6 +42,12 @@ MODULES = ["OllamaVerif.Properties.C06"]
 THEOREMS = [
     "OllamaVerif.C06.mask_exact",
     "OllamaVerif.C06.mask_exact_all_histories",
+    "OllamaVerif.C06.mask_exact_pass",
+    "OllamaVerif.C06.mask_exact_plain_after_reset",
+    "OllamaVerif.C06.mask_exact_except_of_covers",
+    "OllamaVerif.C06.startForward_except",
+    "OllamaVerif.C06.setCausal_covers",
+    "OllamaVerif.C06.visE_false",
     "OllamaVerif.C06.forward_exposes_stored_history",
     "OllamaVerif.C06.startForward_put_abs_perm",
     "OllamaVerif.C06.forward_abs_perm",
